@@ -98,6 +98,20 @@ def f_blocks(a):
     return {"op": "blocks", "sr": srmodel(a["sr"]), "A": a["A"], "blocks": [sorted(inv[x] for x in bl) for bl in blocks]}
 
 
+def f_blocks_order(a):
+    """scc_decomposition under an explicit visiting order (the roots and the successors of every node in a given
+    order): a schedule of Tarjan.tla replayed into the real function."""
+    from genlm.grammar.linear import scc_decomposition
+    A = a["A"]
+    inc = {v: [] for v in range(A["n"])}
+    for i, j, _ in A["edges"]:
+        if i not in inc[j]:
+            inc[j].append(i)
+    order = {v: sorted(inc[v], key=lambda x: a["succ_rank"][v].index(x)) for v in inc}
+    blocks = list(scc_decomposition(lambda v: order[v], list(a["roots"])))
+    return {"op": "blocks", "sr": srmodel(a["sr"]), "A": A, "blocks": [sorted(bl) for bl in blocks]}
+
+
 # ---------------------------------------------------------------------------
 # C16: the shipped weight types.  Abstraction: model value <-> concrete value of the class.
 
@@ -177,7 +191,7 @@ def f_semiring(a):
     return e
 
 
-FUNCS = {"closure": f_closure, "solve": f_solve, "blocks": f_blocks, "semiring": f_semiring}
+FUNCS = {"closure": f_closure, "solve": f_solve, "blocks": f_blocks, "semiring": f_semiring, "blocks_order": f_blocks_order}
 
 
 def event(fn, args, site=None, feat=None, timeout=30):
